@@ -30,8 +30,7 @@ def gen(rng, n, tier="quick"):
         fault = None
         if rng.random() < 0.45 and scn["targets"]:
             tk = rng.choice(sorted(scn["targets"]))
-            kind = rng.choice(["fail-read-old", "fail-open-tmp", ("fail-write-tmp", rng.choice([0, 1, 7, 40, 10 ** 6])), "fail-replace"])
-            fault = {"kind": list(kind) if isinstance(kind, tuple) else kind, "target": tk + ".py"}
+            fault = {"target": L.file_of(tk), "op_index": rng.randint(0, 4), "k": rng.choice([0, 1, 7, 40, 10 ** 6])}
         for req, got, tags in _run_scenario(scn, fault):
             cases.append({"fam": NAME, "fn": "conform", "args": [req], "impl": got, "tags": tags, "scenario": scn, "fault": fault})
     for i in range(max(4, n // 10)):
@@ -52,8 +51,7 @@ def _run_scenario(scn, fault):
             rec = L.Recorder()
             fo = None
             if fault is not None and run == 0:
-                k = fault["kind"]
-                fo = L.Fault(tuple(k) if isinstance(k, list) else k, fault["target"])
+                fo = L.Fault(fault["target"], fault["op_index"], fault["k"])
             L.run_api(scn, paths, rec, fo)
             for c in rec.calls:
                 an = [_oc(c["emit"]), _oc(c["parse"]), bool(c["found"]), bool(c["type_ok"]), bool(c["cmp"]), bool(c["replaced"]),
@@ -61,7 +59,7 @@ def _run_scenario(scn, fault):
                 rel = os.path.basename(c["file"])
                 fsw = [[rel, c["old"]]] if c["old"] is not None else []
                 fired = fo is not None and fo.filename == c["file"] and fo.fired
-                fw = fo.wire() if fired else Sym("nofault")
+                fw = (fo.wire() or Sym("nofault")) if fired else Sym("nofault")
                 req = dumps([Sym("conform"), fsw, rel, c["search"], Sym(c["kind"]), an, fw])
                 res = c["result"]
                 got = dumps([opt(c["new"]), Sym("some") if c["tmp_left"] else Sym("none"),
@@ -70,7 +68,7 @@ def _run_scenario(scn, fault):
                 branch = ("create" if c["old"] is None else "append" if not c["found"] else "same" if c["cmp"] else
                           "replace" if c["replaced"] else "found-not-replaced")
                 out.append((req, got, ["run%d" % run, "kind:" + c["kind"], "branch:" + branch,
-                                       "fault:" + (fo.kind if fired and isinstance(fo.kind, str) else fo.kind[0] if fired else "none")]))
+                                       "fault:" + ("%s-%s" % (fo.fired_op[0], fo.fired_op[1]) if fired else "none")]))
                 if fired:
                     fo = None
     finally:
